@@ -184,7 +184,7 @@ func vStopperStop(s *syncutil.Stopper) {
 // replica's state machine at the same time, and the shutdown order - a node
 // only becomes closable (last load reference dropped => close worker may call
 // Close) when no snapshot job is inside its state machine and none can start.
-//vcheck: reach=job-picked-up,job-finished,stop-requested,stop-waits-for-a-running-job,stopped-with-work,done workers=16 replay=symbolic forbid=. steps=2000000
+//vcheck: reach=job-picked-up,job-finished,stop-requested,stop-waits-for-a-running-job,stopped-with-work,done workers=16 replay=symbolic forbid=. steps=2000000 tier=dev
 func VHarness_C11_SnapshotPool() {
 	nShards := 1 + vChoose("shards", 2)
 	env := &vPoolEnv{closeReady: map[uint64]bool{}, saveOut: map[uint64]bool{}, recoverOut: map[uint64]bool{}}
